@@ -66,7 +66,7 @@ func VerifC15_writer() {
 	t.AddRowItems(vfString("b", 1, vfTXT), "x")
 	t.AddSeparator()
 	t.AddRowItems("r")
-	nf := 4
+	nf := 5
 	f := vfChoice("format", nf)
 	clean := &vfFailWriter{k: -1, mode: 1}
 	err0 := vfRenderTo(t, f, clean)
